@@ -5,6 +5,7 @@ mod rng;
 mod lattice;
 mod resp;
 mod routing;
+mod digest;
 use std::panic;
 
 pub struct Found {
@@ -44,6 +45,7 @@ fn main() {
         "lattice" => lattice::search(&pid, &oid, seed),
         "resp_codec" => resp::search(&pid, &oid, seed),
         "routing" => routing::search(&pid, &oid, seed),
+        "digest" => digest::search(&pid, &oid, seed),
         _ => None,
     };
     match res {
